@@ -223,7 +223,7 @@ def _assembly(res, tier, seed, i):
             if k.startswith("assembl"):
                 res.count(k, v)
         res.count("assembly_histories")
-        if run.harness and len(res.errors) < 2:
+        if run.degenerate() and len(res.errors) < 2:
             res.error(run.harness[0])
         for f in run.fails:
             res.fail(f["kind"], f["sig"], f["msg"], {"assembly_case": case, "seed": [seed, i]})
